@@ -4,6 +4,6 @@ From V.c20 Require Import C20Model.
 Require Import ExtrOcamlBasic.
 Separate Extraction
   loc src api astate observe prog_safe reader_only compile final_state pl race_freeb conflictb local
-  input_ids writes reads
+  input_ids writes reads api_target
   (* ocaml/vx.ml refers to coq_N and coq_Z *)
   BinNat.N.add BinInt.Z.add.
